@@ -316,6 +316,20 @@ def get_tg(root=None, **kw):
     return TableGroupCacheManager.get_table_group(tables_root_dir=root, **kw)
 
 
+def safe_tg(ctx, tag, model_load, root=None, **kw):
+    """load a table group; a failure is a compared outcome (model: load_d_check), not a
+    harness crash.  Returns None when the implementation cannot load the tables."""
+    try:
+        with lib.time_limit(120):
+            return get_tg(root=root, **kw)
+    except Exception as e:
+        io = 'err %d' % lib.err_code(e)
+        ctx.count(('load', tag))
+        ctx.compare({'env': tag, 'cmd': 'load tables', 'args': {k: v for k, v in kw.items()}}, io, model_load,
+                    kind='tableD-load', holds=lambda: False)
+        return None
+
+
 def run_random_lists(ctx, tag, b_files, d_files, tg, env_lines, n_wf, n_ill, maxx=63):
     rng = ctx.rng
     b_m = merged(b_files)
@@ -579,16 +593,17 @@ def run_version_selection(ctx, wmo, local):
             ctx.dist['version-selection-fallback-to-default'] += 1
 
         def holds():
+            n_eff = n if n in numbers else 0
             wdir = '%s/0/0/%s' % (w[0], w[2])
-            req = '%d/0/0/%d' % (n if n in numbers else 0, v)
-            if req in existing and wdir != req:
-                return False
-            dflt = '%d/0/0/33' % (n if n in numbers else 0)
-            if dflt in existing and wdir not in existing:
+            req = '%d/0/0/%d' % (n_eff, v)
+            if req in existing:
+                if wdir != req:
+                    return False
+            elif wdir != '%d/0/0/33' % n_eff:       # the documented default version
                 return False
             if lo is not None:
                 cs = lo[1].split('_')
-                if '%s/%s/%s/%s' % (lo[0], cs[0], cs[1], lo[2]) not in existing:
+                if l == 0 or '%s/%s/%s/%s' % (lo[0], cs[0], cs[1], lo[2]) not in existing:
                     return False
             return True
         ctx.compare({'cmd': 'norm', 'args': list(t)}, io, mouts[i], kind='normalize-tables-sn', holds=holds)
@@ -705,7 +720,21 @@ def run(ctx):
     d33 = load_json(os.path.join(v33, 'TableD.json'))
     env33 = export_env([b33], [d33])
     _SCAN_ENV['lines'] = env33
-    tg33 = get_tg(master_table_version=int(os.path.basename(v33)))
+    load33 = lib.run_model(env33 + ['loadcheck'])[-1].split(' factors_ok')[0]
+    tg33 = safe_tg(ctx, 'v33', load33, master_table_version=int(os.path.basename(v33)))
+    tmp33 = None
+    if tg33 is None:
+        # the bundled tables do not load on the implementation: continue on the same
+        # Table B with an EMPTY Table D (temporary root), so that the list comparison
+        # still produces concrete descriptor lists
+        tmp33 = tempfile.mkdtemp(prefix='c14_b33_')
+        write_tables(tmp33, 0, '0_0', 33, b33, {})
+        d33 = {}
+        env33 = export_env([b33], [d33])
+        _SCAN_ENV['lines'] = env33
+        tg33 = safe_tg(ctx, 'v33-emptyD', 'ok', root=tmp33, master_table_version=33)
+        if tg33 is None:
+            raise RuntimeError('Table B alone does not load')
     for fn in sorted(glob.glob(os.path.join(corpus_dir, '*.json'))):
         rec = load_json(fn)
         for ids in rec.get('id_lists', []):
@@ -748,7 +777,10 @@ def run(ctx):
         mres = list(ex.map(model_job, jobs))
     total_undef = 0
     for (tag, b, d, kw), (env_lines, seqs, mouts) in zip(jobs, mres):
-        tg = get_tg(**kw)
+        n_env = len(env_lines)
+        tg = safe_tg(ctx, tag, mouts[n_env].split(' factors_ok')[0], **kw)
+        if tg is None:
+            continue
         key = show_key(tg.key.wmo_tables_sn, tg.key.local_tables_sn)
         ctx.dist['table-environments'] += 1
         d_int = int_d_files(d)
@@ -781,8 +813,10 @@ def run(ctx):
     if vlow:
         v, p = vlow[-1]
         bl, dl = load_json(os.path.join(p, 'TableB.json')), load_json(os.path.join(p, 'TableD.json'))
-        run_random_lists(ctx, 'v%d' % v, [bl], [dl], get_tg(master_table_version=v), export_env([bl], [dl]),
-                         ctx.n(100, 3000), ctx.n(100, 2000))
+        envl = export_env([bl], [dl])
+        tgl = safe_tg(ctx, 'v%d' % v, lib.run_model(envl + ['loadcheck'])[-1].split(' factors_ok')[0], master_table_version=v)
+        if tgl is not None:
+            run_random_lists(ctx, 'v%d' % v, [bl], [dl], tgl, envl, ctx.n(100, 3000), ctx.n(100, 2000))
 
     # ---- (3) generated tables --------------------------------------------------------
     run_synthetic_tables(ctx, ctx.n(25, 400))
@@ -829,6 +863,8 @@ def run(ctx):
         ctx.violation({'kind': 'extraction-cross-check', 'error': err, 'no_failing_input': True,
                        'broken': 'OCaml extraction of Template.v disagrees with vm_compute'})
     ctx.extra['tableD_entries_reaching_placeholders'] = total_undef
+    if tmp33:
+        shutil.rmtree(tmp33, ignore_errors=True)
     ctx.assumptions = [
         'the directory listing given to the model is the one os.listdir/os.path.isdir showed at the start of the run',
         'Table B/D JSON files are exported by the harness (int() of keys and member ids, unit as UTF-8 bytes); names and CREX '
